@@ -395,7 +395,7 @@ impl Ix for Cfi {
    conc_common!(K2);
 }
 
-// ------------------------------------------------------------------ concurrent: CLatIndex (public, not named by generated code)
+// ------------------------------------------------------------------ concurrent: CLatIndex (the non-key indices of a lattice relation under ascent_par!, since /repo d5edf35)
 pub struct Clat(CLatIndex<(i32,), usize>);
 
 impl Ix for Clat {
